@@ -4,6 +4,7 @@ import (
 	"context"
 	"errors"
 	"fmt"
+	"io"
 	"math/rand/v2"
 
 	astits "github.com/asticode/go-astits"
@@ -148,6 +149,12 @@ func readerFault(c *mon.Ctx, idx int64, input []byte, cfg DemuxCfg, base []Item,
 		readerFault1(c, idx, input, cfg, base, f, true)
 		c.Count("reader_faults_delivered_with_data")
 	}
+	if (f+int(idx))%2 == 0 {
+		// the reader's own error is io.ErrUnexpectedEOF (cut gzip / tar / HTTP input): an error other than end-of-file
+		cfg.FailErr = io.ErrUnexpectedEOF
+		readerFault1(c, idx, input, cfg, base, f, f%4 == 0 && f > 0)
+		c.Count("reader_faults_with_unexpected_eof_as_the_readers_error")
+	}
 }
 
 func readerFault1(c *mon.Ctx, idx int64, input []byte, cfg DemuxCfg, base []Item, f int, withData bool) {
@@ -157,6 +164,11 @@ func readerFault1(c *mon.Ctx, idx int64, input []byte, cfg DemuxCfg, base []Item
 	cls := cfg.Reader + "/" + sizeCls(cfg.PacketSize) + "/" + cfg.API
 	if withData {
 		cls += "/error-with-data"
+	}
+	cause := mon.ErrInjected
+	if cfg.FailErr != nil {
+		cause = cfg.FailErr
+		cls += "/unexpected-eof"
 	}
 	region := "payload"
 	switch {
@@ -190,11 +202,11 @@ func readerFault1(c *mon.Ctx, idx int64, input []byte, cfg DemuxCfg, base []Item
 		// first error
 		c.Count("reader_faults_injected")
 		c.Case(mon.HashStr("r", fmt.Sprint(idx, cfg.String(), f, withData)), true)
-		if errors.Is(it.Err, astits.ErrNoMorePackets) && !errors.Is(it.Err, mon.ErrInjected) {
+		if errors.Is(it.Err, astits.ErrNoMorePackets) && !errors.Is(it.Err, cause) {
 			c.Violate("C18/reader/failure-reported-as-end-of-stream:"+cls+":"+region, "reader", idx, fmt.Sprintf("reader failed at offset %d (reads so far %d), the call returned ErrNoMorePackets", f, tap.NReads), data)
 			return
 		}
-		if !errors.Is(it.Err, mon.ErrInjected) {
+		if !errors.Is(it.Err, cause) {
 			c.Violate("C18/reader/error-does-not-wrap-cause:"+cls+":"+region, "reader", idx, fmt.Sprintf("reader failed at offset %d; first error: %v", f, it.Err), data)
 			return
 		}
